@@ -242,14 +242,19 @@ func (p *Processor) ChargingDataUpdate(
 	ue.CULock.Lock()
 	defer ue.CULock.Unlock()
 
+	// the request must name an open charging session of this subscriber; a rejected request has no effect
+	cdr := ue.Cdr[chargingSessionId]
+	if cdr == nil || cdr.ChargingFunctionRecord == nil {
+		logger.ChargingdataPostLog.Errorf("CHFUe[%s]: unknown charging session [%s]", ueId, chargingSessionId)
+		problemDetails := &models.ProblemDetails{
+			Status: http.StatusNotFound,
+			Cause:  "CHARGING_NOT_FOUND",
+		}
+		return nil, problemDetails
+	}
+
 	// Online charging: Rate, Account, Reservation
 	responseBody, partialRecord := p.BuildConvergedChargingDataUpdateResopone(chargingData)
-
-	cdr := ue.Cdr[chargingSessionId]
-
-	if len(ue.Records) > 1 {
-		cdr = ue.Records[len(ue.Records)-1]
-	}
 
 	cdrBytes, errCdrBer := asn.BerMarshalWithParams(&cdr, "explicit,choice")
 	if errCdrBer != nil {
@@ -286,9 +291,18 @@ func (p *Processor) ChargingDataUpdate(
 		if err != nil {
 			logger.ChargingdataPostLog.Error(err)
 		}
+		if newRecord == nil || newRecord.ChargingFunctionRecord == nil {
+			problemDetails := &models.ProblemDetails{
+				Status: http.StatusBadRequest,
+				Detail: "cannot start a new partial record",
+			}
+			return nil, problemDetails
+		}
 
 		newRecord.ChargingFunctionRecord.ListOfMultipleUnitUsage = []cdrType.MultipleUnitUsage{}
 		cdr = newRecord
+		// the session now continues in the new record
+		ue.Cdr[chargingSessionId] = cdr
 		ue.Records = append(ue.Records, cdr)
 	}
 
@@ -318,9 +332,9 @@ func (p *Processor) ChargingDataUpdate(
 		_, oper_err := p.OpenCDR(chargingData, ue, chargingSessionId, partialRecord)
 		if oper_err != nil {
 			logger.ChargingdataPostLog.Error("OpenCDR error:", oper_err)
+		} else if seq := cdr.ChargingFunctionRecord.RecordSequenceNumber; seq != nil {
+			logger.ChargingdataPostLog.Tracef("CDR Record Sequence Number after Reopen %+v", *seq)
 		}
-		logger.ChargingdataPostLog.Tracef(
-			"CDR Record Sequence Number after Reopen %+v", *cdr.ChargingFunctionRecord.RecordSequenceNumber)
 	}
 
 	err = dumpCdrFile(ueId, ue.Records)
